@@ -54,6 +54,19 @@ impl<T> List<T> {
     }
 }
 
+impl<T> Drop for List<T> {
+    // Unlink iteratively so that dropping a long list does not recurse once per node.
+    fn drop(&mut self) {
+        let mut link = self.head.take();
+        while let Some(node) = link {
+            match Arc::into_inner(node) {
+                Some(mut node) => link = node.next.take(),
+                None => break,
+            }
+        }
+    }
+}
+
 impl<T> Clone for List<T> {
     fn clone(&self) -> Self {
         Self {
